@@ -1,0 +1,59 @@
+//go:build verif
+
+// Contracts for the inline leaf scanners (C13, C07, C02, C04).  Comments only;
+// see contracts_verif.go for the conventions.
+
+package commonmark
+
+// ---------------------------------------------------------------------------
+// Character references (section 2.5): &name; with name alphanumeric, &#D; with
+// 1-7 decimal digits, &#xH; / &#XH; with 1-6 hexadecimal digits.  (Whether a
+// name is an HTML5 entity is decided by html.UnescapeString, an assumed
+// dependency; only the shape is proved.)
+// ---------------------------------------------------------------------------
+
+//@ spec CharRefShape(s []byte, n int) bool = 3 <= n && n <= len(s) && s[0] == '&' && s[n - 1] == ';' && (
+//@       (s[1] != '#' && (forall k in [1, n - 1): IsAlnum(s[k])))
+//@    || (s[1] == '#' && (s[2] == 'x' || s[2] == 'X') && 5 <= n && n <= 10 && (forall k in [3, n - 1): IsHexDigit(s[k])))
+//@    || (s[1] == '#' && s[2] != 'x' && s[2] != 'X' && 4 <= n && n <= 10 && (forall k in [2, n - 1): IsDigit(s[k]))))
+
+//@ func parseCharacterEscape
+//@   ensures[shape] end >= 0 ==> CharRefShape(text, end)
+//@   ensures[safe] end >= 0 ==> CharRefSafe(text, 0, end)
+//@   ensures[range] end == -1 || (3 <= end && end <= len(text))
+//@   loop 0: invariant[name] text[0] == '&' && text[1] != '#' && len(text) >= 3 && (forall k in [1, _i + 1): IsAlnum(text[k]))
+//@   loop 1: invariant[hex] text[0] == '&' && text[1] == '#' && (text[2] == 'x' || text[2] == 'X') && len(rest) <= 7 && len(rest) == min(len(text) - 3, 7)
+//@       && aliases(rest, text[3:]) && (forall k in [0, _i): IsHexDigit(rest[k]))
+//@   loop 2: invariant[dec] text[0] == '&' && text[1] == '#' && text[2] != 'x' && text[2] != 'X' && len(rest) <= 8 && len(rest) == min(len(text) - 2, 8)
+//@       && aliases(rest, text[2:]) && (forall k in [0, _i): IsDigit(rest[k]))
+//@   serves C13, C07, C04
+
+// ---------------------------------------------------------------------------
+// Hard line break by trailing spaces (section 6.7): two or more spaces followed
+// by nothing but spaces and line-ending characters up to the end of the run.
+// ---------------------------------------------------------------------------
+
+//@ spec HardBreakText(s []byte, a int, b int) bool = a + 2 <= b && s[a] == ' ' && s[a + 1] == ' ' && (forall k in [a, b): s[k] == ' ' || IsEOL(s[k]))
+
+//@ func parseHardLineBreakSpace
+//@   ensures[shape] isHardLineBreak ==> (end == len(remaining) && HardBreakText(remaining, 0, end))
+//@   ensures[progress] len(remaining) > 0 && remaining[0] == ' ' ==> end >= 1
+//@   ensures[range] 0 <= end && end <= len(remaining)
+//@   loop 0: invariant[sp] 0 <= end && end <= 2 && end <= len(remaining) && (forall k in [0, end): remaining[k] == ' ')
+//@   loop 0: decreases 2 - end
+//@   loop 1: invariant[rest] 2 <= end && end <= len(remaining) && remaining[0] == ' ' && remaining[1] == ' ' && (forall k in [0, end): remaining[k] == ' ' || IsEOL(remaining[k]))
+//@   loop 1: decreases len(remaining) - end
+//@   serves C13, C04
+
+// ---------------------------------------------------------------------------
+// Autolinks (section 6.5): the recognised text is <...>.
+// ---------------------------------------------------------------------------
+
+//@ func parseAutolink
+//@   ensures[shape] end >= 0 ==> (5 <= end && end <= len(text) && text[0] == '<' && text[end - 1] == '>')
+//@   ensures[range] end == -1 || end >= 5
+//@   loop 0: invariant[scheme] 2 <= end && end <= len(text) && text[0] == '<'
+//@   loop 0: decreases len(text) - end
+//@   loop 1: invariant[uri] 4 <= end && end <= len(text) && text[0] == '<'
+//@   loop 1: decreases len(text) - end
+//@   serves C13, C04
